@@ -16,7 +16,8 @@ RULE = ("fault/input enumeration under AddressSanitizer + UndefinedBehaviorSanit
         "through the Go binding's protocol (set_length -> allocate exactly the reported slots -> unmarshal) with the input in an exact-length heap block; every "
         "accepted object is marshalled again into an exact-size block; fixed-size objects (ciphertext, signature, master key, LQ-IBE objects, G1/G2/GT) x {valid, "
         "zeros, 0xFF, all 256 first bytes, every byte position flipped}; buffer PLACEMENT: every valid object marshalled to and parsed from a buffer that starts at "
-        "allocation + off for EVERY off in 0..15 (byte buffers carry no alignment); on x86-64 asm, portable 64-bit and portable 32-bit builds; plus the call sequences of the "
+        "allocation + off for EVERY off in 0..15 (byte buffers carry no alignment); SIZES: parameter sets fresh from setup and keys for l = 5..257 (every 2^k and "
+        "its neighbours) marshalled, parsed and re-marshalled; on x86-64 asm, portable 64-bit and portable 32-bit builds; plus the call sequences of the "
         "other properties' quick checks executed once under the same sanitizers. distinct = distinct (kind, encoding, mode, fill, length, first byte); "
         "non-trivial = length accepted by the length-discovery function or a fixed-size parse")
 ASSUMPTIONS = ["ASan/UBSan are the monitor: an access they cannot see (e.g. inside the assembly routines) is not detected here (covered by C03's interpreters and C20's write monitor)",
@@ -134,6 +135,8 @@ def shards(ctx):
             for checked in (True, False):
                 out.append({"sub": "fuzz", "cfg": cfg, "kind": "fixed", "compressed": comp, "checked": checked, "fill": "alphabet"})
                 out.append({"sub": "fuzz", "cfg": cfg, "kind": "placement", "compressed": comp, "checked": checked, "fill": "alphabet"})
+                if cfg == "asm" or checked:
+                    out.append({"sub": "fuzz", "cfg": cfg, "kind": "large", "compressed": comp, "checked": checked, "fill": "alphabet"})
     for chk in (SUBCHECKS_QUICK if ctx.tier == "quick" else SUBCHECKS_THOROUGH):
         out.append({"sub": "subcheck", "check": chk, "deadline": 300 if ctx.tier == "quick" else 900})
     # sub-checks are the long poles: start them first
@@ -156,8 +159,8 @@ def run_shard(ctx, shard):
         stat, fail = run_fuzz(cfg, kind, shard["compressed"], shard["checked"], shard["fill"], start)
         if fail is None:
             if stat:
-                ctx.ok(False, "parse:%s:%s" % (kind, shard["fill"].rstrip("0123456789")), n=stat["calls"] - stat["lengths_accepted"] if kind not in ("fixed", "placement") else 0)
-                ctx.ok(True, "parse-accepted-length:%s" % kind, n=stat["lengths_accepted"] if kind not in ("fixed", "placement") else stat["calls"])
+                ctx.ok(False, "parse:%s:%s" % (kind, shard["fill"].rstrip("0123456789")), n=stat["calls"] - stat["lengths_accepted"] if kind not in ("fixed", "placement", "large") else 0)
+                ctx.ok(True, "parse-accepted-length:%s" % kind, n=stat["lengths_accepted"] if kind not in ("fixed", "placement", "large") else stat["calls"])
                 ctx.extra["objects_accepted"] += stat["objects_accepted"]
                 ctx.extra["remarshalled"] += stat["remarshalled"]
             ctx.sample({"sub": "fuzz", "cfg": cfg, "kind": kind, "compressed": shard["compressed"], "checked": shard["checked"], "fill": shard["fill"], "stat": stat}, limit=1)
